@@ -468,6 +468,26 @@ def inject_duplicate_edge(rng, ast):
     return ast
 
 
+def inject_double_ring(rng, ast):
+    """two ring bonds between the same pair of nodes (the second duplicates the first)"""
+    ast = copy.deepcopy(ast)
+    units, nbrs, order = _units(ast)
+    idx = {id(it): k for k, it in enumerate(order)}
+    cands = [(a, b) for a in order for b in order if idx[id(a)] < idx[id(b)] and a['m'] is None and b['m'] is None
+             and units[id(a)] == units[id(b)] and id(b) not in nbrs[id(a)]]
+    if not cands:
+        return None
+    used = {marker_value(mk) for it in order for _, mk in it['r']}
+    free = [v for v in range(0, 10) if v not in used]
+    if len(free) < 2:
+        return None
+    a, b = rng.choice(cands)
+    m1, m2 = rng.sample(free, 2)
+    a['r'] += [[rand_sym(rng, 0.2), str(m1)], [rand_sym(rng, 0.2), str(m2)]]
+    b['r'] = [[None, str(m1)], [None, str(m2)]] + b['r']
+    return ast
+
+
 # --------------------------------------------------------------------------- exhaustive enumeration
 def _shapes(n, depth_left, max_branches):
     """all chain shapes with exactly n items: list of chains of bare items (names filled later)"""
